@@ -2415,11 +2415,10 @@ func rulePXImportBlock(c *Ctx) []Obligation {
 				stream = append(stream, segsText(e.Segs))
 			case (e.Kind == "call" || e.Kind == "invoke") && e.Name != "" && (strings.HasSuffix(e.Name, "."+c.renderName()) || e.Name == c.renderName()):
 				d := ""
-				for _, a := range e.Args {
-					d += p.Deep(a) + " "
-				}
 				if e.Recv != nil {
-					d = p.Deep(e.Recv) + " " + d
+					d = p.Deep(e.Recv)
+				} else if len(e.Args) > 0 {
+					d = p.Deep(e.Args[0])
 				}
 				stream = append(stream, "⟦render|"+commentSource(d)+"⟧")
 			case e.Kind == "call" && e.Fn == c.registerFn():
@@ -2655,8 +2654,8 @@ func rulePXFileRender(c *Ctx) []Obligation {
 					got += "⟦IMPORTS⟧"
 				default:
 					d := ""
-					for _, a := range call.A {
-						d += p.Deep(a) + " "
+					if len(call.A) > 0 {
+						d = p.Deep(call.A[0]) // the value rendered (receiver)
 					}
 					got += "⟦" + commentSource(d) + "⟧"
 				}
